@@ -12,8 +12,9 @@ from ..tracelib import first_diff, normalize
 PID = "C15"
 TYPES_ALL = ["RuntimeError", "AbortRetryError", "RetryExhaustedError", "CircuitOpenError",
              "TimeoutError", "StopIteration", "asyncio.TimeoutError", "TypeError", "ValueError",
-             "KeyError", "AttributeError", "OSError", "AssertionError"]
-TYPES_QUICK = ["RuntimeError", "AbortRetryError", "StopIteration", "TypeError"]
+             "KeyError", "AttributeError", "OSError", "AssertionError", "HybridCancelled",
+             "HybridExit"]
+TYPES_QUICK = ["RuntimeError", "AbortRetryError", "StopIteration", "TypeError", "HybridCancelled"]
 SITES = {"metric": "metric", "log": "log", "before_sleep": "bsleep"}
 
 META = {
@@ -71,6 +72,13 @@ def tasks(tier):
                    max_unknown=None, strat_menu=[1, 0], timeline=True,
                    breaker=brk_closed if e.startswith(("Policy", "AsyncPolicy")) else None)
         out.append({"family": "hook-faults-slow", "cfg": cfg, "entry": e, "bound": 1, "weight": 4})
+    # a library jitter strategy drawing from the process-global random stream: a swallowed hook
+    # failure must not consume draws
+    for e in ["Retry.execute", "AsyncRetry.call", "Policy.call"]:
+        cfg = dict(M=4, alphabet=["ok", "x:T", "r:T"], strat={"default": "libjitter", "per": {}},
+                   global_rng=True, before_sleep="call", max_unknown=None, timeline=True,
+                   breaker=brk_closed if e.startswith("Policy") else None)
+        out.append({"family": "hook-faults-jitter", "cfg": cfg, "entry": e, "bound": 0, "weight": 4})
     for e in ["RetrySet.call", "AsyncRetrySet.execute", "RetryPolicySet.call",
               "AsyncRetryPolicySet.execute"]:
         cfg = dict(M=3, alphabet=["ok", "x:T", "r:T"], abort=True, before_sleep="policy",
